@@ -208,11 +208,20 @@ def run(ctx) -> None:
             if has_inst
             else f"cache access `{canon_chain(base, keys)}` does not depend on the instance: instances share a bound signal",
         )
-        for k in keys:
-            if inst in names_in(k) and not (isinstance(k, ast.Name) and k.id == inst):
+        for k0 in keys:
+            # a key held in a local (`key = id(instance)`) is judged by what the local holds
+            forms = [k0]
+            if isinstance(k0, ast.Name) and k0.id != inst:
+                forms = find_assign_sources(f, k0.id) or [k0]
+            for k in forms:
+              if inst in names_in(k) and not (isinstance(k, ast.Name) and k.id == inst):
                 if isinstance(k, ast.Call) and call_name(k) in ("id", "hash", "repr", "str"):
                     rep.violate("C11.R1", f, n, f"the cache is keyed by `{ast.unparse(k)}`, not by the instance itself: after the owner is garbage collected a new instance can get the same key and inherit the dead instance's bound signal (shared channel, source None)")
-                elif not isinstance(k, ast.Tuple):
+                elif isinstance(k, ast.Tuple):
+                    bad = [e for e in k.elts if isinstance(e, ast.Call) and call_name(e) in ("id", "hash", "repr", "str") and inst in names_in(e)]
+                    if bad and not any(isinstance(e, ast.Name) and e.id == inst for e in k.elts):
+                        rep.violate("C11.R1", f, n, f"the cache key contains `{ast.unparse(bad[0])}` instead of the instance itself: a later instance can get the same key and inherit a dead instance's bound signal")
+                else:
                     rep.unrecognised("C11.R1", f, n, f"cache key `{ast.unparse(k)}` derived from the instance in an unrecognised way")
     rep.floor("C11.R1", len(acc), 2)
     loads = [x for x in acc if not x[3]]
